@@ -926,3 +926,44 @@ fn h_enc_fs_first_chunk_auth() {
     core::mem::forget(r1);
     core::mem::forget(r);
 }
+
+// ------------------------------------------------------------------------------------------
+// C08: totality of the seek arithmetic on ANY inner length and ANY offset
+// ------------------------------------------------------------------------------------------
+//@ props: C08
+//@ functions: <layers::encrypt::EncryptionLayerInternal<R> as std::io::Seek>::seek (all three arms); no_tag_position_to_tag_position; tag_position_to_no_tag_position
+//@ bounds: production constants; ANY inner length (full u64, not only well-formed, incl. shorter than a tag); ANY SeekFrom variant with ANY u64/i64 offset; arbitrary pre-state; inner stream rejects negative/overflowing targets with an error like std::io::Cursor
+//@ stubs: EncryptionLayerInternal::load_in_cache -> load contract (its real body is total by h_enc_load_auth_refines); alloc::fmt::format; From<mla::Error> for io::Error
+//@ outside: nothing is asserted about results here — the claim is only that no panic (overflow, unwrap, index) is reachable
+//@ replay: verif_replay_encrypt::enc_seek_total n:u64 ipos:u64 ccn:u32 cl:u64 cp:u64 which:u8 off:u64
+#[kani::proof]
+#[kani::unwind(3)]
+#[kani::stub(alloc::fmt::format, nofmt)]
+#[kani::stub(<std::io::Error as std::convert::From<crate::errors::Error>>::from, cheap_from)]
+#[kani::stub(EncryptionLayerInternal::load_in_cache, contract_load_auth)]
+fn h_enc_seek_total() {
+    let n: u64 = kani::any();
+    let ipos: u64 = kani::any();
+    let ccn: u32 = kani::any();
+    let cl: u64 = kani::any();
+    let cp: u64 = kani::any();
+    kani::assume(cl <= SPEC_CHUNK && cp <= SPEC_CHUNK);
+    if replay_cap!() {
+        kani::assume(n <= REPLAY_N_CAP);
+    }
+    let mut l = mk_internal(Abs::strict(n, ipos), ccn, cl, cp);
+    let which: u8 = kani::any();
+    let off: u64 = kani::any();
+    let sf = match which % 3 {
+        0 => SeekFrom::Start(off),
+        1 => SeekFrom::Current(off as i64),
+        _ => SeekFrom::End(off as i64),
+    };
+    kani::cover!(which % 3 == 0 && off > (1u64 << 63), "huge absolute target");
+    kani::cover!(which % 3 == 2 && n % SPEC_CTS > 0 && n % SPEC_CTS < SPEC_TAG, "End on a stream cut inside a tag");
+    kani::cover!(which % 3 == 1 && (off as i64) == i64::MAX, "Current(i64::MAX)");
+    kani::cover!(n < SPEC_TAG, "stream shorter than a tag");
+    let r = l.seek(sf);
+    core::mem::forget(r);
+    core::mem::forget(l);
+}
